@@ -194,3 +194,12 @@ fn k_stack_1_frame_reuse() {
     vcover!();
     std::mem::forget(st);
 }
+
+/// Does this frame list `key` as an output edge?
+pub(crate) fn has_output(q: &ActiveQuery, key: DatabaseKeyIndex) -> bool {
+    q.input_outputs.contains(&crate::zalsa_local::QueryEdge::output(key))
+}
+pub(crate) fn set_stamp(q: &mut ActiveQuery, d: Durability, r: Revision) {
+    q.durability = d;
+    q.changed_at = r;
+}
